@@ -30,7 +30,7 @@ EXHAUSTIVE_SCOPE = "schedules of length<=3 over the 100-letter alphabet (1 010 1
 ASSUMPTIONS = ["base_duration=0 is outside the domain (stan_epochs does not terminate)",
                "an empty schedule is neither valid nor invalid (not checked)"]
 WORKERS = 16
-TIMEOUT = {"quick": 600, "thorough": 3000}
+TIMEOUT = {"quick": 1500, "thorough": 10800}
 
 TYPES = [0, 1, 2, 3, 4]
 DURS = [0, 1, 2, 3, 4]
